@@ -5,8 +5,8 @@ import (
 	"encoding/json"
 	"fmt"
 	"os"
+	"reflect"
 	"runtime"
-	"sort"
 	"strings"
 	"sync"
 	"sync/atomic"
@@ -33,7 +33,55 @@ const (
 
 type task struct {
 	B int // behaviour
-	K int // yields
+	K int // yields; for panicking tasks: which kind of value is raised (see raise)
+}
+
+// tagErr is raised by pointer: the handler must receive the very same pointer.
+type tagErr struct{ i int }
+
+func (e *tagErr) Error() string { return fmt.Sprintf("tagErr %d", e.i) }
+
+var nilMap map[int]int
+
+// raise panics with the value kind k selects: explicit values (string, pointer) and faults raised by the runtime.
+func raise(i, k int, ptr *tagErr) {
+	switch k % 6 {
+	case 0:
+		panic(fmt.Sprintf("p%d", i))
+	case 1:
+		panic(ptr)
+	case 2:
+		nilMap[i] = 1
+	case 3:
+		s := make([]int, i%3)
+		_ = s[i%3+i%2]
+	case 4:
+		var q *tagErr
+		_ = q.i
+	default:
+		z := i - i
+		_ = i / z
+	}
+	panic("HARNESS: raise did not panic")
+}
+
+// raised returns the value the same raise call produces when recovered directly.
+func raised(i, k int, ptr *tagErr) (v any) {
+	defer func() { v = recover() }()
+	raise(i, k, ptr)
+	return nil
+}
+
+// samePanic: the handler must get the panic value itself - same dynamic type, identical for comparable values,
+// same message for the runtime's error values.
+func samePanic(want, got any) bool {
+	if reflect.TypeOf(want) != reflect.TypeOf(got) {
+		return false
+	}
+	if we, ok := want.(runtime.Error); ok {
+		return we.Error() == got.(runtime.Error).Error()
+	}
+	return want == got
 }
 
 type limCase struct {
@@ -44,11 +92,13 @@ type limCase struct {
 	Procs   int
 	Timed   bool // after the first Wait() the idle Limiter is also waited on with a timeout (returns at once)
 	Twin    bool // a second Limiter with the same limit argument is kept saturated for the whole scenario
+	Expire  bool // (not under the race detector) a timed Wait expires while functions run; after they finished the Limiter is used again
 }
 
-func gen(t *rapid.T) limCase {
-	c := limCase{Limit: rapid.OneOf(rapid.IntRange(1, 6), rapid.IntRange(-2, 6)).Draw(t, "limit"), Handler: rapid.IntRange(0, 3).Draw(t, "handler") != 0,
+func gen(t *rapid.T) (c limCase) {
+	c = limCase{Limit: rapid.OneOf(rapid.IntRange(1, 6), rapid.IntRange(-2, 6)).Draw(t, "limit"), Handler: rapid.IntRange(0, 3).Draw(t, "handler") != 0,
 		Procs: rapid.SampledFrom([]int{1, 2, 4, 16}).Draw(t, "procs"), Timed: rapid.Bool().Draw(t, "timed"), Twin: rapid.IntRange(0, 3).Draw(t, "twin") == 0}
+	defer func() { c.Expire = rapid.IntRange(0, 2).Draw(t, "expire") == 0 }()
 	n := rapid.IntRange(1, 24).Draw(t, "ntasks")
 	for i := 0; i < n; i++ {
 		c.Tasks = append(c.Tasks, task{B: rapid.SampledFrom([]int{bReturn, bYield, bGate, bGate, bGate, bPanicBeforeGate, bPanicAfterGate, bPanicNow}).Draw(t, "b"), K: rapid.IntRange(0, 5).Draw(t, "k")})
@@ -85,7 +135,8 @@ type world struct {
 	submitterDone int32
 	violation     atomic.Value
 	mu            sync.Mutex
-	handled       []string
+	handled       []any
+	ptrs          []*tagErr
 	lastDump      string
 }
 
@@ -127,13 +178,11 @@ func (w *world) body(i int, tk task) func() {
 			}
 		case bGate:
 			wait()
-		case bPanicNow:
-			panic(fmt.Sprintf("p%d", i))
-		case bPanicBeforeGate:
-			panic(fmt.Sprintf("p%d", i))
+		case bPanicNow, bPanicBeforeGate:
+			raise(i, tk.K, w.ptrs[i])
 		case bPanicAfterGate:
 			wait()
-			panic(fmt.Sprintf("p%d", i))
+			raise(i, tk.K, w.ptrs[i])
 		}
 	}
 }
@@ -292,21 +341,28 @@ func run(c limCase, r *pb.Rec) error {
 		r.Class("second Limiter saturated alongside")
 	}
 	l := goz.NewLimiter(c.Limit)
-	w := &world{n: n, execs: make([]int32, len(c.Tasks)+n), gates: make([]chan struct{}, len(c.Tasks)+n), parked: make([]int32, len(c.Tasks)+n), opened: make([]int32, len(c.Tasks)+n)}
+	tot := len(c.Tasks) + 2*n
+	w := &world{n: n, execs: make([]int32, tot), gates: make([]chan struct{}, tot), parked: make([]int32, tot), opened: make([]int32, tot), ptrs: make([]*tagErr, tot)}
 	if c.Handler {
 		l.SetPanicHandler(func(p any) {
 			w.mu.Lock()
-			w.handled = append(w.handled, fmt.Sprint(p))
+			w.handled = append(w.handled, p)
 			w.mu.Unlock()
 		})
 	}
 	var bodies []func()
-	var wantPanics []string
+	var wantPanics []any
+	runtimeFaults := 0
 	for i, tk := range c.Tasks {
 		w.gates[i] = make(chan struct{})
+		w.ptrs[i] = &tagErr{i}
 		bodies = append(bodies, w.body(i, tk))
 		if tk.B >= bPanicBeforeGate {
-			wantPanics = append(wantPanics, fmt.Sprintf("p%d", i))
+			v := raised(i, tk.K, w.ptrs[i])
+			wantPanics = append(wantPanics, v)
+			if _, ok := v.(runtime.Error); ok {
+				runtimeFaults++
+			}
 		}
 	}
 	// phase 1+2: submit everything; release the gates one at a time, each time from a quiescent state
@@ -378,13 +434,26 @@ func run(c limCase, r *pb.Rec) error {
 	}
 	if c.Handler {
 		w.mu.Lock()
-		got := append([]string(nil), w.handled...)
+		got := append([]any(nil), w.handled...)
 		w.mu.Unlock()
-		sort.Strings(got)
-		sort.Strings(wantPanics)
-		if strings.Join(got, ",") != strings.Join(wantPanics, ",") {
-			return fmt.Errorf("panic handler received %v, panics raised %v", got, wantPanics)
+		// every raised value reaches the handler exactly once, as the value itself (multiset match)
+		used := make([]bool, len(got))
+		for _, want := range wantPanics {
+			found := false
+			for j, g := range got {
+				if !used[j] && samePanic(want, g) {
+					used[j], found = true, true
+					break
+				}
+			}
+			if !found {
+				return fmt.Errorf("a function panicked with %T(%v) but the handler did not receive that value; it received %d value(s): %s", want, want, len(got), describe(got))
+			}
 		}
+		if len(got) != len(wantPanics) {
+			return fmt.Errorf("panic handler was called %d times for %d panics: %s", len(got), len(wantPanics), describe(got))
+		}
+		r.ClassIf(runtimeFaults > 0, "handler checked against a fault raised by the runtime")
 	}
 	if c.Timed {
 		// the timed form on an idle Limiter returns at once and leaves nothing behind; the untimed Wait of the
@@ -404,8 +473,54 @@ func run(c limCase, r *pb.Rec) error {
 		}
 		r.Class("timed Wait on the idle Limiter")
 	}
+	extra := 0
+	if c.Expire && os.Getenv("VERIF_MODE") != "race" {
+		// a timed Wait gives up while functions are running; they finish afterwards with nobody waiting, the
+		// Limiter goes idle (the helper goroutine of the timed Wait is gone) and is then used again in phase 3,
+		// where Wait() must block as ever. Not under the race detector: it has no way to see that the helper's
+		// WaitGroup.Wait returned before the next Add and reports the reuse on the unchanged library.
+		extra = 1 + len(c.Tasks)%n
+		var mid []func()
+		for i := 0; i < extra; i++ {
+			w.gates[len(c.Tasks)+i] = make(chan struct{})
+			mid = append(mid, w.body(len(c.Tasks)+i, task{B: bGate}))
+		}
+		atomic.StoreInt32(&w.submitterDone, 0)
+		go submitLoop(l, w, mid)
+		if _, err := w.waitQuiescent(extra); err != nil {
+			return err
+		}
+		timedDone := make(chan struct{})
+		go func() { l.Wait(20 * time.Millisecond); close(timedDone) }()
+		select {
+		case <-timedDone:
+		case <-time.After(20 * time.Second):
+			return inconclusive{"Wait(20ms) did not return within 20s"}
+		}
+		for i := 0; i < extra; i++ {
+			atomic.StoreInt32(&w.opened[len(c.Tasks)+i], 1)
+			close(w.gates[len(c.Tasks)+i])
+		}
+		if _, err := w.waitQuiescent(extra); err != nil {
+			return err
+		}
+		for deadline := time.Now().Add(20 * time.Second); ; {
+			buf := make([]byte, 1<<18)
+			if d := string(buf[:runtime.Stack(buf, true)]); !strings.Contains(d, "goz.(*Limiter).Wait") && !strings.Contains(d, "goz.(*Limiter).done") {
+				break
+			}
+			if time.Now().After(deadline) {
+				return inconclusive{"the helper goroutine of an expired timed Wait did not finish within 20s after all functions had finished"}
+			}
+			runtime.Gosched()
+		}
+		if f := atomic.LoadInt32(&w.finished); int(f) != len(c.Tasks)+extra {
+			return fmt.Errorf("HARNESS: %d of %d functions finished before phase 3", f, len(c.Tasks)+extra)
+		}
+		r.Class("timed Wait expired while functions ran, Limiter reused after going idle")
+	}
 	// phase 3: after the panics, n more gate-blocked functions must all get inside at the same time
-	base := len(c.Tasks)
+	base := len(c.Tasks) + extra
 	var more []func()
 	for i := 0; i < n; i++ {
 		w.gates[base+i] = make(chan struct{})
@@ -448,8 +563,8 @@ func run(c limCase, r *pb.Rec) error {
 	if v := w.violation.Load(); v != nil {
 		return fmt.Errorf("%s", v)
 	}
-	if f := atomic.LoadInt32(&w.finished); int(f) != len(c.Tasks)+n {
-		return fmt.Errorf("second Wait() returned with %d of %d functions finished", f, len(c.Tasks)+n)
+	if f := atomic.LoadInt32(&w.finished); int(f) != base+n {
+		return fmt.Errorf("second Wait() returned with %d of %d functions finished", f, base+n)
 	}
 	if int(atomic.LoadInt32(&w.maxInside)) > n {
 		return fmt.Errorf("max concurrency %d > limit %d", w.maxInside, n)
@@ -463,10 +578,18 @@ func run(c limCase, r *pb.Rec) error {
 	return nil
 }
 
+func describe(vs []any) string {
+	var b strings.Builder
+	for _, v := range vs {
+		fmt.Fprintf(&b, "%T(%.80v) ", v, v)
+	}
+	return b.String()
+}
+
 func TestLimiter(t *testing.T) {
 	st := pb.Stats("limiter")
-	st.SetRule("scenarios: limit -2..6 (below 1 => 3), 1..24 functions that return / yield / park on a harness gate / panic (before or after the gate), drawn gate release order, with or without panic handler, GOMAXPROCS 1..16; the harness releases one gate at a time, each time from a quiescent state, and after Wait() submits n more parked functions that must all run concurrently; monitors: concurrency never above n, exactly-once execution, Wait() only after all finished, handler receives every panic value, no slot leaked (state-based: submitter parked in the Limiter's channel send while fewer than n functions hold slots); schedules inside the Limiter are sampled, not owned; non-trivial = a panic followed by a saturation phase")
-	st.Require("second Limiter saturated alongside", "timed Wait on the idle Limiter", "saturated: submitter blocked with all slots held", "panics raised", "limit below 1 (default 3)", "panic without handler", "limit reached")
+	st.SetRule("scenarios: limit -2..6 (below 1 => 3), 1..24 functions that return / yield / park on a harness gate / panic (before or after the gate), drawn gate release order, with or without panic handler, GOMAXPROCS 1..16; the harness releases one gate at a time, each time from a quiescent state, and after Wait() submits n more parked functions that must all run concurrently; monitors: concurrency never above n, exactly-once execution, Wait() only after all finished, handler receives every panic value itself (strings, pointers by identity, runtime faults by type and message), an expired timed Wait followed by idle and reuse (plain mode), no slot leaked (state-based: submitter parked in the Limiter's channel send while fewer than n functions hold slots); schedules inside the Limiter are sampled, not owned; non-trivial = a panic followed by a saturation phase")
+	st.Require("second Limiter saturated alongside", "timed Wait on the idle Limiter", "handler checked against a fault raised by the runtime", "timed Wait expired while functions ran, Limiter reused after going idle", "saturated: submitter blocked with all slots held", "panics raised", "limit below 1 (default 3)", "panic without handler", "limit reached")
 	// the default panic handler prints to stdout: keep the test output clean (swapped once, not per case)
 	if dn, err := os.OpenFile(os.DevNull, os.O_WRONLY, 0); err == nil {
 		old := os.Stdout
